@@ -20,7 +20,50 @@ class Reject(Exception):
 
 
 # expected ConstructError subclasses per rejection kind (names resolved on the copy under test)
+UNIT = {"ascii": 1, "utf8": 1, "utf_8": 1, "utf_16_le": 2, "utf_16_be": 2, "utf_32_le": 4, "utf_32_be": 4}
+
+
+def text_encode(v, enc):
+    from symx import strings
+    if type(v).__name__ not in ("str", "SymStr"):
+        raise Reject("string", "not text")
+    if len(v) == 0:
+        return []
+    try:
+        b = strings.encode(v, enc) if type(v).__name__ == "SymStr" else v.encode(enc)
+    except UnicodeError:
+        raise Reject("string", "cannot encode")
+    return list(b)
+
+
+def text_decode(items, enc):
+    from symx import strings
+    from symx.values import mkbytes
+    b = mkbytes(items)
+    try:
+        return strings.decode(b, enc) if type(b).__name__ == "SymBytes" else bytes(b).decode(enc)
+    except UnicodeError:
+        raise Reject("string", "cannot decode")
+
+
+def strip_units(data, unit):
+    """documented NullStripped rule for a pad of `unit` zero bytes"""
+    data = list(data)
+    if unit == 1:
+        while data and data[-1] == 0:
+            data.pop()
+        return data
+    tail = len(data) % unit
+    end = len(data)
+    if tail and same(data[end - tail:end], [0] * tail):
+        end -= tail
+    while end - unit >= 0 and same(data[end - unit:end], [0] * unit):
+        end -= unit
+    return data[:end]
+
+
 KIND_CLASSES = {
+    "string": ("StringError",),
     "range": ("IntegerError", "FormatFieldError"),
     "short": ("StreamError",),
     "const": ("ConstError",),
@@ -138,6 +181,8 @@ def static_size(s, bitmode=False):
         return 0
     if k == "bytes":
         return s[1]
+    if k == "pstring":
+        return s[1]
     if k == "const":
         return len(s[1]) // 2
     if k in ("constv",):
@@ -247,6 +292,18 @@ def enc(s, v, env=None, bitmode=False):
         return list(v)
     if k == "greedybytes":
         return list(v)
+    if k == "pstring":
+        body = text_encode(v, s[2])
+        if len(body) > s[1]:
+            raise Reject("padding")
+        return body + [0] * (s[1] - len(body))
+    if k == "cstring":
+        return text_encode(v, s[1]) + [0] * UNIT[s[1]]
+    if k == "pascal":
+        body = text_encode(v, s[2])
+        return enc(s[1], len(body), env, bitmode) + body
+    if k == "greedystring":
+        return text_encode(v, s[1])
     if k == "const":
         c = bytes.fromhex(s[1])
         if v is not None:
@@ -578,6 +635,28 @@ def dec(s, buf, pos, env=None, bitmode=False):
         return B(items), pos
     if k == "greedybytes":
         return B(buf[pos:]), len(buf)
+    if k == "pstring":
+        items, pos = take(buf, pos, s[1])
+        return text_decode(strip_units(items, UNIT[s[2]]), s[2]), pos
+    if k == "cstring":
+        u = UNIT[s[1]]
+        p = pos
+        data = []
+        while True:
+            if p + u > len(buf):
+                raise Reject("short", "terminator not found")
+            unit = list(buf[p:p + u])
+            p += u
+            if same(unit, [0] * u):
+                break
+            data += unit
+        return text_decode(data, s[1]), p
+    if k == "pascal":
+        n, pos = dec(s[1], buf, pos, env, bitmode)
+        items, pos = take(buf, pos, n)
+        return text_decode(items, s[2]), pos
+    if k == "greedystring":
+        return text_decode(list(buf[pos:]), s[1]), len(buf)
     if k == "const":
         c = bytes.fromhex(s[1])
         items, pos = take(buf, pos, len(c))
